@@ -67,7 +67,6 @@ extern "C" void harness(void) {
     int64_t packed = 0;
     for (int k = 0; k < H_NPIDS; k++) { int zero = (int)vf_nd(K_PID + n * 4 + k, 0, H_PIDZERO); nd.pids[k] = zero ? 0 : PID_OF(n, k); packed |= (int64_t)nd.pids[k] << (10 * k); }
     nd.low = nd.min = 0; nd.high = nd.max = nd.hightmp = INT64_MAX; nd.swapcur = 0; nd.swapmax = INT64_MAX; nd.anon = nd.file = nd.shmem = nd.pgscan = 0;
-    for (int r = 0; r < 2; r++) for (int f = 0; f < 2; f++) for (int w = 0; w < 3; w++) nd.psi[r][f][w] = 0;
     vf_cfg_set(CFG_NODE + n, 0, 1); vf_cfg_set(CFG_NODE + n, 1, nd.populated); vf_cfg_set(CFG_NODE + n, 2, nd.oom_group); vf_cfg_set(CFG_NODE + n, 3, nd.xattrs);
     vf_cfg_set(CFG_NODE + n, 4, nd.cur); vf_cfg_set(CFG_NODE + n, 5, nd.npids); vf_cfg_set(CFG_NODE + n, 6, packed); vf_cfg_set(CFG_NODE + n, 7, nd.pids_current);
     for (int tu = 0; tu < 2; tu++) {
